@@ -293,6 +293,49 @@ Qed.
 Lemma rpg_eof ro F g s : exec (readPacketG ro F (S g)) s [] = ((s, Err 1), []).
 Proof. unfold readPacketG. rewrite exec_bind, hdr_eof. reflexivity. Qed.
 
+(* a decryption secrets block is skipped by the packet read *)
+Lemma enc_dsb_shape ty pl : 0 <= ty < 4294967296 -> zlen pl < 4294967000 ->
+  let L := 20 + zlen pl + pad4 (zlen pl) in
+  enc_dsb ty pl = le_bytes 4 10 ++ le_bytes 4 L ++ (le_bytes 4 ty ++ le_bytes 4 (zlen pl) ++ pl ++ zeros (pad4 (zlen pl)) ++ le_bytes 4 L)
+  /\ 20 <= L < 4294967296
+  /\ zlen (le_bytes 4 ty ++ le_bytes 4 (zlen pl) ++ pl ++ zeros (pad4 (zlen pl)) ++ le_bytes 4 L) = L - 8.
+Proof.
+  intros Ht Hp. cbv zeta. pose proof (zlen_nonneg pl). pose proof (pad4_range (zlen pl)).
+  unfold enc_dsb. rewrite (u32_small (zlen pl)) by lia.
+  replace (8 + 4 + 8 + zlen pl + pad4 (zlen pl)) with (20 + zlen pl + pad4 (zlen pl)) by lia.
+  rewrite u32_small by lia. split; [reflexivity|]. split; [lia|].
+  rewrite !zlen_app, !zlen_le_bytes, zlen_zeros by lia. lia.
+Qed.
+
+Lemma hdr_dsb_step ro F g s L x :
+  r_big s = false -> 20 <= L < 4294967296 ->
+  exec (readPacketHeader ro F (S g)) s (le_bytes 4 10 ++ le_bytes 4 L ++ x)
+  = match exec (s_disc (L - 8)) (set_block s false 10 (L - 8)) x with
+    | ((s1, Ok _), l1) => exec (readPacketHeader ro F g) s1 l1
+    | ((s1, Err c), l1) => ((s1, Err c), l1)
+    | ((s1, Panic q), l1) => ((s1, Panic q), l1)
+    end.
+Proof.
+  intros Hbig HL. cbn [readPacketHeader]. cbv zeta.
+  rewrite exec_bind, exec_readBlock_plain by (try assumption; try lia; unfold BT_SHB; lia). cbv iota beta.
+  rewrite exec_bind, exec_sget. cbv iota beta. sim. unfold BT_SHB. cbn [Z.eqb Pos.eqb orb].
+  rewrite exec_bind. reflexivity.
+Qed.
+
+Lemma rpg_dsb ro F g s ty pl rest :
+  r_big s = false -> 0 <= ty < 4294967296 -> zlen pl < 4294967000 ->
+  exists s', r_big s' = false /\ r_ifaces s' = r_ifaces s
+    /\ exec (readPacketG ro F (S g)) s (enc_dsb ty pl ++ rest) = exec (readPacketG ro F g) s' rest.
+Proof.
+  intros Hbig Ht Hp. destruct (enc_dsb_shape ty pl Ht Hp) as (E & HL & Hz). cbv zeta in *.
+  set (L := 20 + zlen pl + pad4 (zlen pl)) in *. rewrite E. repeat rewrite <- app_assoc.
+  exists (set_blen (set_block s false 10 (L - 8)) (u32 (L - 8 - (L - 8)))). sim. repeat split; auto.
+  unfold readPacketG. rewrite !exec_bind. rewrite hdr_dsb_step by assumption.
+  match goal with |- context [exec (s_disc (L - 8)) ?st (?a ++ ?b ++ ?c ++ ?d ++ ?e ++ rest)] =>
+    replace (a ++ b ++ c ++ d ++ e ++ rest) with ((a ++ b ++ c ++ d ++ e) ++ rest) by (repeat rewrite <- app_assoc; reflexivity) end.
+  rewrite exec_disc_app by exact Hz. sim. reflexivity.
+Qed.
+
 (* ---------------------------------------------------------------- scripts *)
 Definition enc_op (op : wop) : list Z :=
   match op with
@@ -309,6 +352,7 @@ Fixpoint ops_ok (ws : list wiface) (ops : list wop) : Prop :=
   | [] => True
   | WAddIf w :: t => wif_ok w /\ ops_ok (ws ++ [w]) t
   | WPacket ifid ts caplen len data o :: t => wf_packet (map iface_of ws) ifid ts caplen len data o /\ ops_ok ws t
+  | WDSB ty pl :: t => dsb_type_ok ty = true /\ 0 <= ty < 4294967296 /\ zlen pl < 4294967000 /\ ops_ok ws t
   | _ => False
   end.
 
@@ -389,6 +433,17 @@ Proof.
       { unfold link_at. rewrite Hifs, nth_error_map in Ei. destruct (nth_error ws (Z.to_nat ifid)); [|discriminate].
         cbn in Ei. inversion Ei. reflexivity. }
       split; [reflexivity|]. split; [exact Hok|]. split; [exact (conj HF12 HFt)|]. split; [reflexivity|]. split; [cbn [length]; lia|reflexivity].
+    + (* WriteDecryptionSecretsBlock: skipped *)
+      destruct Hok as (_ & Hty & Hpl & Hok). cbn [exp_pkts enc_ops map concat enc_op ws_after]. rewrite <- app_assoc.
+      destruct (rpg_dsb ro F g s ty pl (concat (map enc_op t) ++ tail) Hbig Hty Hpl) as (s1 & Q1 & Q2 & E).
+      assert (sinv ws s1) as Hs1 by (split; [exact Q1|rewrite Q2; exact Hifs]).
+      assert (length t < g)%nat as Hg' by lia.
+      destruct (IH ws s1 g tail Hg' Hs1 Hok (conj HF12 HFt)) as (ws' & s' & Hs' & R).
+      exists ws', s'. split; [exact Hs'|]. fold (enc_ops t) in *.
+      destruct (exp_pkts ws t) as [|p ps] eqn:Ep.
+      * rewrite E. destruct t; cbn [length Nat.sub] in *; exact R.
+      * destruct t as [|op2 t2]; [cbn in Ep; discriminate|].
+        destruct R as (t' & R1 & R2 & R3 & R4 & R5 & R6). exists t'. rewrite E. split; [exact R1|]. split; [exact R2|]. split; [exact R3|]. split; [exact R4|]. split; [cbn [length] in *; lia|exact R6].
 Qed.
 
 (* ---------------------------------------------------------------- the whole read loop over a script
@@ -547,6 +602,8 @@ Proof.
     assert (caplen =? zlen data = true) as -> by lia. cbn [negb].
     assert (len <? caplen = false) as -> by lia.
     rewrite IH; [reflexivity|exact Hok|lia].
+  - destruct Hok as (Hty & _ & _ & Hok). cbn [wrun wstep map enc_op]. rewrite Hty.
+    rewrite IH; [reflexivity|exact Hok|lia].
 Qed.
 
 Lemma write_file_shape sec i0 ops : ops_ok [] (WAddIf i0 :: ops) -> zlen ops < 4294967290 ->
@@ -586,7 +643,7 @@ Proof.
 Qed.
 
 Lemma script_sizes : forall ops ws, ops_ok ws ops ->
-  32 * zlen ops <= zlen (enc_ops ops)
+  20 * zlen ops <= zlen (enc_ops ops)
   /\ Forall (fun op => match op with WPacket _ _ _ _ _ o => 4 * zlen (popts_to_options o) <= zlen (enc_ops ops) | _ => True end) ops.
 Proof.
   induction ops as [|op t IH]; intros ws Hok; [split; [cbn; lia|constructor]|].
@@ -598,6 +655,10 @@ Proof.
   - destruct Hok as (Hw & Hok). destruct (IH _ Hok) as (I1 & I2). destruct (zlen_enc_epb _ _ _ _ _ _ _ Hw) as (Z1 & Z2). cbn [enc_op].
     pose proof (zlen_nonneg (enc_ops t)).
     split; [lia|]. constructor; [lia|]. eapply Forall_impl; [|exact I2]. intros [] Ha; auto. lia.
+  - destruct Hok as (_ & Hty & Hpl & Hok). destruct (IH _ Hok) as (I1 & I2). cbn [enc_op].
+    destruct (enc_dsb_shape ty pl Hty Hpl) as (E & HL & Hz). cbv zeta in *.
+    assert (20 <= zlen (enc_dsb ty pl)) by (rewrite E; rewrite zlen_app, zlen_app, Hz, !zlen_le_bytes; lia).
+    split; [lia|]. constructor; [exact I|]. eapply Forall_impl; [|exact I2]. intros [] Ha; auto. lia.
 Qed.
 
 (* ---------------------------------------------------------------- C14_ng_roundtrip for scripts of AddInterface / WritePacketWithOptions *)
